@@ -5,10 +5,12 @@ package wf
 
 import (
 	"fmt"
+	"math/big"
 
 	"github.com/zclconf/go-cty/cty"
 
 	"verif/harness/facet"
+	"verif/harness/model"
 	"verif/harness/spec"
 )
 
@@ -36,6 +38,10 @@ func CheckAll(vs ...cty.Value) *facet.Failure {
 		}
 	}
 	return nil
+}
+
+func strictNumEq(x, y *big.Float) bool {
+	return x.Cmp(y) == 0 && x.Text('f', -1) == y.Text('f', -1)
 }
 
 func public(v cty.Value, path string) *facet.Failure {
@@ -142,6 +148,12 @@ func public(v cty.Value, path string) *facet.Failure {
 					eq := members[a].Equals(members[b])
 					if eq.IsKnown() && eq.True() {
 						return fail("setdup", "set holds two equal members %#v and %#v", members[a], members[b])
+					}
+					// the same question put to the checker's own structural equality
+					// (numbers: identical value and identical text only), so that the
+					// answer does not rest on the library's Equals alone
+					if members[a].IsWhollyKnown() && members[b].IsWhollyKnown() && model.RefEq(members[a], members[b], strictNumEq) {
+						return fail("setdup", "set holds two members that are structurally the same value: %#v and %#v", members[a], members[b])
 					}
 				}
 			}
